@@ -221,6 +221,13 @@ def trigger_andor_multi(prog):
     return False
 
 
+def trigger_underscore_read(prog):
+    """F-C01-f: the program itself reads a variable named `_` (the name rules give to the locals that keep side effects)."""
+    if prog is None:
+        return False
+    return any(n.get("k") == "var" and n.get("s") == "_" for n in prog["nodes"])
+
+
 def run_property(pid, tier, group, cfgs, luau, env_for=None, nrand=(200, 3000), per_cfg=(150, 1200), full_labels=("full",),
                  level_note=None, extra_sig=None):
     """Generic meaning-preservation check: RuleCases group + random programs x configurations -> LuaEquiv verdicts,
@@ -281,6 +288,7 @@ def run_property(pid, tier, group, cfgs, luau, env_for=None, nrand=(200, 3000), 
         prog0 = trig_cache[c["src"]]
         sig = {"kind": "behaviour" if v["verdict"] == "differ" else "failure", "culprit": cul.split(",")[0].replace("{ rule: ", "").strip("'\" {}") if cul.startswith("{") else cul,
                "trigger_andor_multi": trigger_andor_multi(prog), "trigger_repeat_continue_local": trigger_repeat_continue_local(prog),
+               "trigger_underscore_read": trigger_underscore_read(prog0),
                "generator": c["generator"], "cfg": c["cfg"], "what": (v.get("detail") or {}).get("what", v.get("status", ""))[:120],
                "body": c["body"][:200]}
         if extra_sig:
